@@ -8,6 +8,9 @@ from replay.common import main
 
 
 def scenarios(seed, tier, failed):
+    for kind in ('fifo', 'lifo'):
+        yield {'kind': 'cancel-before-first-run', 'queue': kind, 'timeout': 20}
+    yield {'kind': 'subclass-capacity', 'capacity': 520, 'sources': 510, 'timeout': 60}
     for cap in (2, 3):
         yield {'kind': 'evict', 'capacity': cap, 'timeout': 20}
     for names in (['A'], ['A', 'B'], ['A', 'B', 'A'], ['B', 'A', 'C', 'A']):
@@ -55,9 +58,78 @@ def run_evict(sc):
             pe.task_run_event.clear()
 
 
+def run_cancel_before_first_run(sc):
+    """A non-deferred periodic source is armed and cancelled before its timer thread gets its first time slice (the
+    thread's run() is held behind a gate on the user side).  cancel_event has returned: the source posts nothing."""
+    import threading
+    import miros.activeobject as AOM
+    from miros.event import Event
+    gate = threading.Event()
+
+    class Held(threading.Thread):
+        def run(self):
+            gate.wait(10)
+            super().run()
+    ao = AOM.ActiveObject(name='c11g')
+    real = AOM.Thread
+    AOM.Thread = Held
+    try:
+        post = ao.post_fifo if sc['queue'] == 'fifo' else ao.post_lifo
+        sid = post(Event(signal='C11_GATED'), period=0.02, times=0, deferred=False)
+    finally:
+        AOM.Thread = real
+    try:
+        ao.cancel_event(''.join(list(sid)))
+        gate.set()
+        time.sleep(0.25)
+        n = [e.signal_name for e in ao.queue.deque].count('C11_GATED')
+        if n:
+            return False, 'cancel_event(id) returned before the timer thread first ran, yet the source posted %d ' \
+                          'event(s) afterwards' % n, 'runner:cancel'
+        return True, ''
+    finally:
+        gate.set()
+        for pe in list(ao.posted_events_queue):
+            pe.task_run_event.clear()
+
+
+def run_subclass_capacity(sc):
+    """A subclass with a larger QUEUE_SIZE: every source that __post_event admits stays tracked and cancellable."""
+    from miros.activeobject import ActiveObject, ActiveObjectOutOfPostedEventResources
+    from miros.event import Event
+
+    class Big(ActiveObject):
+        QUEUE_SIZE = sc['capacity']
+    ao = Big(name='c11s')
+    ids, flags = [], []
+    try:
+        for i in range(sc['sources']):
+            try:
+                ids.append(ao.post_fifo(Event(signal='C11_SRC'), period=1000.0, times=1, deferred=True))
+            except ActiveObjectOutOfPostedEventResources:
+                break
+            flags.append(ao.posted_events_queue[-1].task_run_event)
+        tracked = {pe.uuid for pe in ao.posted_events_queue}
+        lost = [i for i in ids if i not in tracked]
+        if lost:
+            return False, '%d of %d admitted sources are no longer tracked (the first one armed among them): ' \
+                          'cancel_event cannot reach them' % (len(lost), len(ids)), 'ActiveObject.__init__[subclass]'
+        ao.cancel_event(ids[0])
+        if flags[0].is_set():
+            return False, 'the first source armed is still running after cancel_event(id)', 'ActiveObject.__init__[subclass]'
+        return True, ''
+    finally:
+        for f in flags:
+            f.clear()
+
+
 def run(sc):
     if sc['kind'] == 'evict':
         return run_evict(sc)
+    if sc['kind'] == 'cancel-before-first-run':
+        return run_cancel_before_first_run(sc)
+    if sc['kind'] == 'subclass-capacity':
+        return run_subclass_capacity(sc)
     from miros.activeobject import ActiveObject
     from miros.event import Event
     ao = ActiveObject(name='c11')
